@@ -16,6 +16,10 @@ whole-source structural controls.
                   built in a sweep's iterable), classified: container of the language / class of the tree.
   (LinInterp also models dataclasses.replace / copy.replace / copy.copy on records: a new record with
   the named fields replaced, every other field shared.)
+  (Remembered instance state - Unknown - and results of unmodelled calls stay unknown through arithmetic
+  and max / min / abs; a test on such a value forks once per run and expression (`state_tests`), and
+  every such test is logged with its node (`state_test_sites`), so that a rule can tell which sweep
+  consulted the instance's state.  HistoryInterp gives the target of each skipped sweep a name of its own.)
   splice / reach  helpers for structural (whole-source) seeded controls.
 """
 from __future__ import annotations
@@ -134,12 +138,26 @@ class LinInterp(OrderInterp):
         self.last_return: ast.AST | None = None
         # constraints added by undecided linear comparisons of this run: (P, strict) == P < 0 / P <= 0
         self.lin_facts: list[tuple[Poly, bool]] = []
+        # tests this run has made on values it knows nothing about (remembered instance state, results of
+        # unmodelled calls): label -> outcome.  The same test on the same state has one outcome per run.
+        self.state_tests: dict[str, bool] = {}
+        self.state_test_sites: list[tuple[str, ast.AST | None]] = []
 
     def reset(self) -> None:
         super().reset()
         self.lin_facts = []
         self.state_reads = []
         self.last_return = None
+        self.state_tests = {}
+        self.state_test_sites = []
+
+    def _state_test(self, label: str, node: ast.AST | None) -> bool:
+        """Outcome of a test on a value in an arbitrary state: a fork, but one per run and test - two
+        evaluations of the same expression over the same (unwritten) state agree."""
+        if label not in self.state_tests:
+            self.state_tests[label] = self.choose(2, label) == 1
+        self.state_test_sites.append((label, node))
+        return self.state_tests[label]
 
     def stmt(self, s: ast.stmt) -> None:
         if isinstance(s, ast.Return):
@@ -170,7 +188,7 @@ class LinInterp(OrderInterp):
         self._state_read(h.name)
         if self.choose(2, f"self.{h.name} has an entry for the key") == 0:
             return False, None
-        return True, Unknown(f"self.{h.name}[...]")
+        return True, Unknown(f"self.{h.name}[{key!r}]")
 
     def get_item(self, base: Any, key: Any, node: ast.AST) -> Any:
         if isinstance(base, Havoc):
@@ -179,7 +197,7 @@ class LinInterp(OrderInterp):
                 raise _Raise("KeyError", node)
             return v
         if isinstance(base, Unknown):
-            return Unknown(f"{base.name}[...]")
+            return Unknown(f"{base.name}[{key!r}]")
         return super().get_item(base, key, node)
 
     def set_item(self, base: Any, key: Any, v: Any, node: ast.AST) -> None:
@@ -241,7 +259,24 @@ class LinInterp(OrderInterp):
             return self.cmp3(pair[0], pair[1])
         raise AnalysisError(f"sign of the linear form {d.poly!r} is not decidable in the order domain ({label})")
 
+    @staticmethod
+    def _opaque(v: Any) -> bool:
+        return isinstance(v, Unknown) or (isinstance(v, Obj) and "__opaque__" in v.fields)
+
+    @staticmethod
+    def _oname(v: Any) -> str:
+        if isinstance(v, Obj) and "__opaque__" in v.fields:
+            return f"<{v.fields['__opaque__'][4:]}()>"
+        return repr(v)
+
     def binop(self, op: ast.operator, a: Any, b: Any, node: ast.AST) -> Any:
+        if self._opaque(a) or self._opaque(b):
+            # arithmetic on remembered instance state / on the result of an unmodelled call (a clock):
+            # nothing is known about the value; every test on it forks
+            # (a call result is a new value each time: its name is made unique)
+            fresh = "" if isinstance(a, (Unknown, Atom, Lin, int, float)) and isinstance(b, (Unknown, Atom, Lin, int, float)) \
+                else f"#{next(self.fresh)}"
+            return Unknown(f"({self._oname(a)} {type(op).__name__} {self._oname(b)}){fresh}")
         la, lb = self._lin(a), self._lin(b)
         if la is not None and lb is not None and isinstance(op, (ast.Add, ast.Sub)):
             p = la.poly + lb.poly if isinstance(op, ast.Add) else la.poly - lb.poly
@@ -256,6 +291,8 @@ class LinInterp(OrderInterp):
         return super().binop(op, a, b, node)
 
     def unaryop(self, op: ast.unaryop, v: Any, node: ast.AST) -> Any:
+        if self._opaque(v) and not isinstance(op, ast.Not):
+            return v if isinstance(op, ast.UAdd) else Unknown(f"({type(op).__name__} {v!r})")
         lv = self._lin(v)
         if lv is not None and isinstance(op, ast.USub):
             return Lin(-lv.poly, dict(lv.atoms))
@@ -265,7 +302,12 @@ class LinInterp(OrderInterp):
 
     def compare_values(self, op: ast.cmpop, a: Any, b: Any, node: ast.AST) -> Any:
         if isinstance(a, Unknown) or isinstance(b, Unknown):
-            return self.choose(2, f"{a!r} {type(op).__name__} {b!r}") == 1
+            return self._state_test(f"{a!r} {type(op).__name__} {b!r}", node)
+        if (self._opaque(a) or self._opaque(b)) and isinstance(op, (ast.Lt, ast.LtE, ast.Gt, ast.GtE)):
+            # ordered against the result of an unmodelled call (a clock): a new value at every call, no memo
+            label = f"{self._oname(a)} {type(op).__name__} {self._oname(b)}"
+            self.state_test_sites.append((label, node))
+            return self.choose(2, label) == 1
         if isinstance(a, (tuple, list)) and isinstance(b, (tuple, list)) and isinstance(op, (ast.Eq, ast.NotEq)) \
                 and type(a) is type(b):
             eq = len(a) == len(b) and all(self.concrete_eq(x, y, node) for x, y in zip(a, b))
@@ -340,6 +382,11 @@ class LinInterp(OrderInterp):
             fields = dict(pos[0].fields)
             fields.update(kw)
             return Obj(pos[0].cls, **fields)
+        if name in ("max", "min", "abs", "float", "int", "round") and pos and not kw \
+                and any(self._opaque(x) for x in pos) \
+                and all(self._opaque(x) or isinstance(x, (Atom, Lin, int, float)) for x in pos):
+            # the larger / smaller of values of which one is in an arbitrary state is in an arbitrary state
+            return Unknown(f"{name}({', '.join(repr(x) for x in pos)})")
         if name == "abs" and len(pos) == 1 and not kw:
             lv = self._lin(pos[0])
             if lv is not None:
@@ -355,7 +402,7 @@ class LinInterp(OrderInterp):
 
     def truth_of(self, v: Any, node: ast.AST | None) -> bool:
         if isinstance(v, Unknown):
-            return self.choose(2, f"truth of {v!r}") == 1
+            return self._state_test(f"truth of {v!r}", node)
         if isinstance(v, Havoc):
             self._state_read(v.name)
             return self.choose(2, f"self.{v.name} is non-empty") == 1
@@ -518,6 +565,11 @@ class HistoryInterp(StoreInterp):
         self.loops: list[ast.For] = []
         self.step = ""
         self.seen: list[tuple[str, list[Any]]] = []
+        # the target sweep's loop and the local that plays its running target (when bound): the target a
+        # skipped sweep would have computed is a value of its own per step, so that what a later step
+        # returns can be told from what an earlier step has left in the instance
+        self.target_loop: ast.For | None = None
+        self.target_name: str | None = None
 
     def reset(self) -> None:
         super().reset()
@@ -528,6 +580,8 @@ class HistoryInterp(StoreInterp):
         if any(s is lp for lp in self.loops):
             assert isinstance(s, ast.For)
             self.seen.append((self.step, list(self.iterate(self.eval(s.iter), s.iter))))
+            if s is self.target_loop and self.target_name is not None:
+                self.env[self.target_name] = Atom("TARGET_of_" + self.step.replace(" ", "_"))
             return
         if isinstance(s, ast.AugAssign) and isinstance(s.op, (ast.Sub, ast.BitAnd, ast.BitOr)) and self._aug_set(s):
             return
